@@ -45,7 +45,7 @@ def run(tier, seed, replay=None):
     rby_cls = {c: [a for a in redirs if a.cls == c] for c in bg.ORDER}
 
     progs = []
-    if replay and replay.get("kind") == "redirect-pair":
+    if replay and replay.get("kind") in ("redirect-pair", "reason-collision"):
         progs = []
     elif replay:
         progs = [bg.Prog(replay["program"], [bg.Atom(t, c, k) for t, c, k in replay["parts"]], "replay")]
@@ -135,6 +135,42 @@ def run(tier, seed, replay=None):
                 if mv != impl:
                     out.disagreements.append({"correspondence": "Walker.analyze_nodes <-> analyzer.analyze", "program": text, "model": mv, "impl": impl,
                                               "config": bg.CONFIG_TEXT, "cwd": bg.CWD})
+        # parts that differ in verdict but agree in everything else a decision carries (the reason text): handler CLIs
+        # describe `git branch` and `git branch -D x` alike, rules may share a message.  The reasons are measured,
+        # the colliding groups are found, and every ordered pair of a group (and every command with itself) is composed.
+        if not replay or replay.get("kind") == "reason-collision":
+            cands = ["git branch", "git branch -D x", "git stash list", "git stash drop", "git tag", "git tag -d x", "git remote", "git remote remove x",
+                     "git config --get a", "git config a b", "git worktree list", "git worktree remove x", "git submodule status", "git submodule update",
+                     "git notes list", "git notes remove", "git bisect log", "git bisect reset", "git log", "git push", "docker ps", "docker rm x",
+                     "kubectl get pods", "kubectl delete pod x", "npm ls", "npm install", "pip list", "pip install x", "gh pr list", "gh pr merge 1",
+                     "zap", "zap a", "askcmd", "askcmd a", "okcmd", "okcmd a", "rm x", "rm y", "ls", "ls -la", "frobnicate a", "frobnicate b",
+                     "ls > nogrant", "cat f > nogrant", "ls > /jail/secret/s", "cat f > /jail/secret/s", "ls > /jail/out/f", "echo hi > /jail/out/f"]
+            meas = {}
+            for c in cands:
+                d = an.analyze(c, cfg, Path(bg.CWD))
+                meas[c] = (d.action, d.reason)
+            by_reason = {}
+            for c, (a, r) in meas.items():
+                by_reason.setdefault(r, []).append(c)
+            groups = [g for g in by_reason.values() if len({meas[c][0] for c in g}) > 1]
+            out.extra["reason_collisions"] = {"candidates": len(cands), "groups_with_different_verdicts": len(groups), "example": groups[0] if groups else None}
+            tmpls = ["{A} && {B}", "{A}; {B}", "{A} | {B}", "( {A}; {B} )", "{ {A}; {B}; }", "if {A}; then {B}; fi", "echo $({A}) $({B})", "{A}\n{B}",
+                     "while {A}; do {B}; done", "{A} || {B}", "{A} & {B}", "{A}; ls; {B}", "for v in a; do {A}; {B}; done", "case a in a) {A};; b) {B};; esac"]
+            pairs = [(a, b) for g in groups for a in g for b in g] + [(c, c) for c in cands]
+            if replay:
+                pairs, tmpls = [tuple(replay["pair"])], [replay["template"]]
+            for (a, b) in pairs:
+                for t in tmpls:
+                    text = t.replace("{A}", a).replace("{B}", b)
+                    impl = an.analyze(text, cfg, Path(bg.CWD)).action
+                    pa = meas[a][0] if a in meas else an.analyze(a, cfg, Path(bg.CWD)).action
+                    pb = meas[b][0] if b in meas else an.analyze(b, cfg, Path(bg.CWD)).action
+                    expected = bg.vmax([pa, pb])
+                    out.case(text)
+                    out.count("shape", "reason-collision")
+                    if impl != expected:
+                        out.violations.append({"kind": "reason-collision", "what": f"analyze(whole)={impl} but the parts alone give {pa} and {pb} (their reasons read alike)",
+                                               "program": text, "pair": [a, b], "template": t, "config": bg.CONFIG_TEXT, "cwd": bg.CWD, "signature_text": text})
     finally:
         model.close()
     n, mism = core.coq_crosscheck("C03", xcheck)
